@@ -77,6 +77,12 @@ def norm(t, keep_conv=False):
                 if v in ("Err", "Break"):
                     return ("err", x)
             return ("vfield", base[1], base[2], name)
+        # a field of a struct / tuple value built right here is the operand it was built from (a private struct used to
+        # hand two values from a helper to its caller, destructured at once)
+        if base[0] == "agg" and base[1][0] == "adt" and len(base[1]) > 3 and name in base[1][3] and len(base[1][3]) == len(base[2]):
+            return base[2][list(base[1][3]).index(name)]
+        if base[0] == "agg" and base[1][0] == "tuple" and name.isdigit() and int(name) < len(base[2]):
+            return base[2][int(name)]
         return ("field", base, name)
     if k == "downcast":
         base = norm(t[1], keep_conv)
@@ -90,6 +96,10 @@ def norm(t, keep_conv=False):
         if is_conv(path) and len(t[2]) == 1:
             inner = norm(t[2][0], keep_conv)
             return ("conv", inner) if keep_conv else inner
+        if path in ("std::option::Option::<T>::unwrap", "std::option::Option::<T>::expect", "std::option::Option::<T>::unwrap_unchecked") and len(t[2]) >= 1:
+            return ("some", norm(t[2][0], keep_conv))   # the payload (whether it can panic is C06's question)
+        if path in ("std::result::Result::<T, E>::unwrap", "std::result::Result::<T, E>::expect") and len(t[2]) >= 1:
+            return ("ok", norm(t[2][0], keep_conv))
         if "FromResidual" in str(path) and len(t[2]) == 1:
             inner = norm(t[2][0], keep_conv)
             # the residual of a value that was itself built by `?` (an inlined helper's `Err(e)?` re-raised by its caller):
@@ -219,6 +229,11 @@ def atom_of(cond, outcome):
         n = norm(c)
         if pos is None or n[0] != "call":
             return ("val", n, outcome)
+        # x.is_some() / x.is_none() / r.is_ok() / r.is_err() are the variant test of x
+        VT = {"std::option::Option::<T>::is_some": ("Some", "None"), "std::option::Option::<T>::is_none": ("None", "Some"),
+              "std::result::Result::<T, E>::is_ok": ("Ok", "Err"), "std::result::Result::<T, E>::is_err": ("Err", "Ok")}
+        if n[1] in VT and len(n[2]) == 1:
+            return ("is", n[2][0], VT[n[1]][0 if pos else 1])
         return ("pred", n[1], n[2], pos)
     if c[0] == "binop":
         pos = outcome_bool(outcome)
